@@ -1,6 +1,6 @@
 (** C07 — every supported stream filter decodes exactly what a reference encoder encoded.
     Only statements here; proofs live in theories/C07/Proofs*.v. *)
-From OxVerif Require Import C07.Proofs.
+From OxVerif Require Import C07.Proofs C07.LzwBits C07.LzwFull.
 From OxGen Require Import FilterConsts.
 Require Import Lia.
 
@@ -101,12 +101,71 @@ Check c07_stage_roundtrips : forall zlib recover p e x L, no_pred p -> (len x <=
   (zlib e = Some x -> apply_filter_with_params zlib recover FFlate p e = Some x /\ stage_lim zlib FFlate p e L = Some x).
 Print Assumptions c07_stage_roundtrips.
 
-(** LZW.  FULL STATEMENT, NOT PROVED (stretch goal of DESIGN 5b not reached):
-      c07_lzw_roundtrip : forall ec x, bytes_ok x = true -> len x <= MAX_DECOMPRESSED_SIZE ->
-        decode_lzw (lzw_encode ec x) ec = Some x.
-    What is established instead: the statement holds by computation on inputs crossing every code-width
-    boundary and the table reset for both EarlyChange values (below), and the decoder model is tied to the
-    real decoder by the correspondence run on reference encodings of such inputs. *)
+(** LZW: the reference encoder of ISO 32000-1 7.4.4 (both EarlyChange values, Clear at table full, EOD)
+    against the code-shaped decoder model, ALL inputs (theories/C07/LzwBits.v, LzwFull.v).  The hypothesis
+    len x <= limit is needed: the decoder refuses to produce more than the limit. *)
+Theorem c07_lzw_roundtrip : forall ec x, bytes_ok x = true -> (len x <= MAX_DECOMPRESSED_SIZE)%N ->
+  decode_lzw (lzw_encode ec x) ec = Some x.
+Proof. exact lzw_roundtrip. Qed.
+Check c07_lzw_roundtrip : forall ec x, bytes_ok x = true -> (len x <= MAX_DECOMPRESSED_SIZE)%N ->
+  decode_lzw (lzw_encode ec x) ec = Some x.
+Print Assumptions c07_lzw_roundtrip.
+
+(** the same under any limit that fits the result (decode_lzw_with_limit) *)
+Theorem c07_lzw_roundtrip_lim : forall ec x L, bytes_ok x = true -> (len x <= L)%N ->
+  decode_lzw_lim (lzw_encode ec x) ec L = Some x.
+Proof. exact lzw_roundtrip_lim. Qed.
+Check c07_lzw_roundtrip_lim : forall ec x L, bytes_ok x = true -> (len x <= L)%N ->
+  decode_lzw_lim (lzw_encode ec x) ec L = Some x.
+Print Assumptions c07_lzw_roundtrip_lim.
+
+(** layer (c): MSB-first variable-width packing, read back with the same width schedule *)
+Theorem c07_lzw_unpack_pack : forall cws, Forall cw_ok cws ->
+  unpack_codes (map snd cws) (bits_of (pack_codes cws)) = Some (map fst cws).
+Proof. exact unpack_pack. Qed.
+Check c07_lzw_unpack_pack : forall cws, Forall cw_ok cws ->
+  unpack_codes (map snd cws) (bits_of (pack_codes cws)) = Some (map fst cws).
+Print Assumptions c07_lzw_unpack_pack.
+
+(** layer (b): the decoder's width update once its table holds [next] entries is the encoder's
+    [widen ec (next+1)] (the decoder lags one entry: thresholds 2^w - 1 / 2^w against 2^w / 2^w + 1) *)
+Theorem c07_lzw_width_agreement : forall (ec : bool) next cs, (9 <= cs <= 12)%N ->
+  (if ((if ec then 2 ^ cs - 1 else 2 ^ cs) <=? next)%N && (cs <? 12)%N then cs + 1 else cs)%N = widen ec (next + 1) cs.
+Proof. exact dec_widen. Qed.
+Check c07_lzw_width_agreement : forall (ec : bool) next cs, (9 <= cs <= 12)%N ->
+  (if ((if ec then 2 ^ cs - 1 else 2 ^ cs) <=? next)%N && (cs <? 12)%N then cs + 1 else cs)%N = widen ec (next + 1) cs.
+Print Assumptions c07_lzw_width_agreement.
+
+(** layers (a)+(d): one decoder step on the code the encoder emits, under the lock-step invariant [Inv]
+    (decoder dictionary = encoder dictionary [E] without its newest entry; KwKwK included): the decoder
+    outputs the code's string in the ENCODER's dictionary and its table becomes [E]; its
+    "table full" branch is not taken (next <= 4096 is part of [Inv]) *)
+Theorem c07_lzw_lockstep_step : forall ec w tbl next cs E rd dlen prev f bs n L,
+  Inv w tbl next cs E rd dlen prev -> (n + len (dict_get E next w) <= L)%N ->
+  lzw_loop (S f) ec (code_bits (N.to_nat cs) w ++ bs) rd dlen cs prev n L =
+  napp (dict_get E next w)
+       (lzw_loop f ec bs E next (widen ec (next + 1) cs) (Some w) (n + len (dict_get E next w)) L).
+Proof. exact dec_emit. Qed.
+Check c07_lzw_lockstep_step : forall ec w tbl next cs E rd dlen prev f bs n L,
+  Inv w tbl next cs E rd dlen prev -> (n + len (dict_get E next w) <= L)%N ->
+  lzw_loop (S f) ec (code_bits (N.to_nat cs) w ++ bs) rd dlen cs prev n L =
+  napp (dict_get E next w)
+       (lzw_loop f ec bs E next (widen ec (next + 1) cs) (Some w) (n + len (dict_get E next w)) L).
+Print Assumptions c07_lzw_lockstep_step.
+
+(** the LZW stage of both chain drivers (completes c07_stage_roundtrips) *)
+Theorem c07_lzw_stage_roundtrip : forall zlib recover p ec x L, no_pred p -> spec_early p = Some ec ->
+  bytes_ok x = true -> (len x <= MAX_DECOMPRESSED_SIZE)%N -> (len x <= L)%N ->
+  apply_filter_with_params zlib recover FLzw p (lzw_encode ec x) = Some x /\
+  stage_lim zlib FLzw p (lzw_encode ec x) L = Some x.
+Proof. exact stage_lzw. Qed.
+Check c07_lzw_stage_roundtrip : forall zlib recover p ec x L, no_pred p -> spec_early p = Some ec ->
+  bytes_ok x = true -> (len x <= MAX_DECOMPRESSED_SIZE)%N -> (len x <= L)%N ->
+  apply_filter_with_params zlib recover FLzw p (lzw_encode ec x) = Some x /\
+  stage_lim zlib FLzw p (lzw_encode ec x) L = Some x.
+Print Assumptions c07_lzw_stage_roundtrip.
+
+(** kept as a computed sanity check of the theorem above (inputs crossing every width boundary and the reset) *)
 Theorem c07_lzw_roundtrip_partial :
   forallb (fun ec => forallb (fun n => let x := lzw_probe n in
      option_eqb bytes_eqb (decode_lzw (lzw_encode ec x) ec) (Some x)) [0; 1; 2; 255; 256; 600; 1200; 2400; 4200]%N)
@@ -129,3 +188,9 @@ Proof. vm_compute. reflexivity. Qed.
 Example c07_nonvacuous_png : apply_predictor (png_forward [4; 3; 1]%N (png_bpp 3 8) (N.to_nat (png_row_bytes 2 3 8)) [1;2;3;4;5;6; 9;8;7;6;5;4; 250;0;3;1;255;7]%N []) 15
     (mkP (Some 15%Z) (Some 2%Z) (Some 3%Z) (Some 8%Z) None) = Some [1;2;3;4;5;6; 9;8;7;6;5;4; 250;0;3;1;255;7]%N.
 Proof. exact png_predictor_roundtrip_nonvacuous. Qed.
+Example c07_nonvacuous_lzw : bytes_ok [97; 97; 97; 97; 97; 98; 97; 98; 97]%N = true /\
+  lzw_encode true [97; 97; 97; 97; 97; 98; 97; 98; 97]%N <> [] /\
+  decode_lzw (lzw_encode false [97; 97; 97; 97; 97; 98; 97; 98; 97]%N) false = Some [97; 97; 97; 97; 97; 98; 97; 98; 97]%N.
+Proof. exact lzw_roundtrip_nonvacuous. Qed.
+Example c07_nonvacuous_lzw_inv : forall k, (k < 256)%N -> Inv k (PM.empty N) 258 9 [] [] 258 None.
+Proof. exact Inv_fresh. Qed.
